@@ -47,6 +47,8 @@ def _run(rs, names_out):
     names_out.update(names)
     if rs.edit_fn is not None:
         rs.edit_fn(net)
+    if getattr(rs, "late_ident", None):
+        H.CTX.ident = rs.late_ident      # labels changed by the edit: identity through the new labels
     if rs.pre_calls:
         # earlier calls of a history run on their own symbol family
         saved = {}
